@@ -4,10 +4,11 @@ Confirms a sub-agent's seeded change in /tmp/wt/<ID> (tests still pass, demo fai
 runs ./check <ID> against that worktree, and archives everything under /verif/seeded/<dest>/."""
 import json, os, shutil, subprocess, sys, xml.etree.ElementTree as ET
 
-pid = sys.argv[1]
-dest = sys.argv[2] if len(sys.argv) > 2 and not sys.argv[2].startswith("--") else pid
+name = sys.argv[1]                       # worktree name under /tmp/wt, e.g. C05 or C05b
+pid = name[:3]
+dest = sys.argv[2] if len(sys.argv) > 2 and not sys.argv[2].startswith("--") else name
 tier = sys.argv[sys.argv.index("--tier") + 1] if "--tier" in sys.argv else "quick"
-wt = f"/tmp/wt/{pid}"
+wt = f"/tmp/wt/{name}"
 seed = f"{wt}/_seed"
 base = json.load(open("/root/.vp/BASELINE.json"))
 env = dict(os.environ, PYTHONPATH=wt)
@@ -19,7 +20,7 @@ def sh(cmd, **kw):
 
 
 def suite():
-    out = f"/tmp/wt/_junit_{pid}.xml"
+    out = f"/tmp/wt/_junit_{name}.xml"
     sh(f"cd {wt} && /venv/bin/python -m pytest -q -p no:cacheprovider --timeout=900 --continue-on-collection-errors --junitxml={out}")
     passed = {f"{tc.get('classname')}::{tc.get('name')}" for tc in ET.parse(out).getroot().iter("testcase")
               if not any(ch.tag in ("failure", "error", "skipped") for ch in tc)}
@@ -43,7 +44,7 @@ sh(f"git -C {wt} apply -R {seed}/patch.diff")
 rc_without = demo()
 sh(f"git -C {wt} apply {seed}/patch.diff")
 assert sh(f"git -C {wt} diff -- pyrepseq").stdout == diff
-log = f"/tmp/wt/_seed_{pid}.{tier}.log"
+log = f"/tmp/wt/_seed_{name}.{tier}.log"
 p = subprocess.run(f"cd /verif && PV_REPO={wt} timeout 3000 ./check {pid} --tier {tier} > {log} 2>&1", shell=True)
 txt = open(log).read()
 keys = [l.strip() for l in txt.splitlines() if l.strip().startswith("violation key")]
